@@ -69,6 +69,41 @@ func C06(tier Tier) int {
 		w.SortInflight()
 		return w, c.Act
 	}
+	// every class is also run under the other call types (an honest node delivers callbacks and
+	// asynchronous calls too); variants that no longer succeed with ample gas are dropped
+	{
+		var more []CatEntry
+		for _, c := range cat {
+			for _, ct := range allCallTypes {
+				v := c
+				v.Name = fmt.Sprintf("%s[callType=%d]", c.Name, ct)
+				if c.Act.Kind == world.ActCall {
+					if c.Act.CallType == ct {
+						continue
+					}
+					v.Act.CallType = ct
+				} else {
+					if c.W.Inflight[c.Act.Msg].CallType == ct {
+						continue
+					}
+					w := c.W.Clone()
+					w.Inflight[c.Act.Msg].CallType = ct
+					v.W = w
+				}
+				vw, va := withGas(v, 1<<62, 0)
+				if _, legs := defEnv.Step(vw, va); len(legs) > 0 && legs[0].OK() {
+					more = append(more, v)
+				}
+			}
+		}
+		cat = append(cat, more...)
+	}
+	jobs = jobs[:0]
+	for ci := range cat {
+		for si := range schedules {
+			jobs = append(jobs, job{ci, si})
+		}
+	}
 	Parallel(len(jobs), func(wk, ji int) {
 		e := ws[wk]
 		c, sc := cat[jobs[ji].ci], schedules[jobs[ji].si]
